@@ -296,7 +296,7 @@ class Ctor:
     HEADER = ('From DA Require Import Prelude NDArray Array PyRT.\nFrom DA.Model Require Import Value Reshape Construct.\nOpen Scope string_scope.\n')
     RUNNER = 'ccase_ok'
     SHOW = 'ccase_show'
-    FORMS = ['lists_dims', 'labels_dims', 'pairs', 'axisobjs', 'dict_dims', 'dims_only', 'nothing', 'zeros', 'ones', 'empty_shape', 'nested']
+    FORMS = ['lists_dims', 'labels_dims', 'pairs', 'axisobjs', 'dict_dims', 'dims_only', 'nothing', 'zeros', 'ones', 'empty_shape', 'nested', 'nested_labels']
     BAD = ['shape_mismatch', 'dup_names', 'empty_name', 'nonstr_name', 'wrong_ndims']
 
     @staticmethod
@@ -306,8 +306,8 @@ class Ctor:
             nd = rng.randint(0, 3)
             a = rand_array(rng, ndim=nd, minlen=1, maxlen=3, dtype=rng.choice(['f', 'i']), kinds=('i', 'f', 'O'))
             form = rng.choice(Ctor.FORMS); bad = rng.choice(Ctor.BAD) if rng.random() < 0.3 and nd >= 1 else None
-            if bad and form in ('dims_only', 'nothing', 'zeros', 'ones', 'empty_shape', 'nested'): form = rng.choice(['lists_dims', 'pairs', 'axisobjs', 'dict_dims'])
-            if form == 'nested' and nd != 2: form = 'lists_dims'
+            if bad and form in ('dims_only', 'nothing', 'zeros', 'ones', 'empty_shape', 'nested', 'nested_labels'): form = rng.choice(['lists_dims', 'pairs', 'axisobjs', 'dict_dims'])
+            if form in ('nested', 'nested_labels') and nd != 2: form = 'lists_dims'
             if form == 'dict_dims' and nd == 0: form = 'lists_dims'
             stats['ctor_form'][form] += 1; stats['ctor_bad'][str(bad)] += 1
             dims = list(a['dims']); labels = [list(l) for l in a['labels']]
@@ -346,6 +346,12 @@ class Ctor:
             l0, l1 = [ops.py_label(x) for x in labels[0]], [ops.py_label(x) for x in labels[1]]
             nested = {k0: {k1: vals[i, j].item() for j, k1 in enumerate(l1)} for i, k0 in enumerate(l0)}
             return D.DimArray(nested, dims=dims)
+        if f == 'nested_labels':
+            # nested dicts whose keys were inserted in ANOTHER order than the labels given next to them: the labels select by key
+            l0, l1 = [ops.py_label(x) for x in labels[0]], [ops.py_label(x) for x in labels[1]]
+            o0 = list(range(len(l0))); o1 = list(range(len(l1))); rr = random.Random(len(l0) * 7 + len(l1)); rr.shuffle(o0); rr.shuffle(o1)
+            nested = {l0[i]: {l1[j]: vals[i, j].item() for j in o1} for i in o0}
+            return D.DimArray(nested, dims=dims, labels=[l0, l1])
 
     @staticmethod
     def execute(c):
